@@ -5,7 +5,8 @@ from harness import worlds
 
 PROP = "C12"
 LEAN_MODULE = "Ztr.Props.C12"
-THEOREMS = ['Ztr.Result.C12_step', 'Ztr.Runner.C12_summary']
+THEOREMS = ['Ztr.Result.C12_step', 'Ztr.Result.C12_counts', 'Ztr.Result.C12_tests_run', 'Ztr.Runner.C12_summary',
+            'Ztr.Runner.C12_summary_truth']
 RULE = ("worlds with every outcome kind incl. several events from one test, failing subtests, unexpected successes, "
         "countTestCases() = 3 tests, layer setUp/tearDown failures and import errors; verbosity 0-3, --repeat, "
         "in-process / resumed / -j N. The 'Ran ..' lines, the 'Total:' line and the 'Tests with failures/errors' lists "
